@@ -77,6 +77,37 @@ def closure_true_literals(prog, body, tree):
 PASS_VARIANTS = ("Continue", "Some", "Ok")
 
 
+def check_parent_gates(rep, prog, E, rid2=None, rid3=None):
+    """every effect of handle_sync / handle_follow_up / handle_delay_resp is conditional on sender == selected parent
+    (and, for Delay_Resp, on requester == own port). Shared with C09 (MEAS-7)."""
+    def port(name):
+        return prog.one(name=name, self_name="Port", crate="statime-lib")
+    # ---------------- NI-2 / NI-3
+    for (rid, fn, gates) in ((rid2 or "NI-2", "handle_sync", [("sender == selected parent", gate_parent)]),
+                             (rid2 or "NI-2", "handle_follow_up", [("sender == selected parent", gate_parent)]),
+                             (rid3 or "NI-3", "handle_delay_resp", [("sender == selected parent", gate_parent),
+                                                            ("requester == own port", gate_requester)])):
+        try:
+            b = port(fn)
+        except AnchorMissing as e:
+            rep.anchor_missing(rid, str(e))
+            continue
+        c = cnd.conds(prog, b)
+        sites = E.sites(b)
+        if not sites:
+            rep.violation(rid, b.key, "effects", "no effect site found in %s (analysis lost the handler)" % fn, where=b.loc())
+        for (bi, line, kind, text) in sites:
+            lits = cnd.expand_literals(prog, b, c.must_literals(bi))
+            missing = [nm for (nm, g) in gates if not g(lits)]
+            if missing:
+                rep.violation(rid, b.key, "%s:%s" % (kind, text),
+                              "effect `%s` is not conditional on %s on every path; conditions that hold: %s" % (
+                                  text, missing, sorted(cnd.lit_str(l) for l in lits)), where=fc.where(b, line))
+            else:
+                rep.ok(rid, b.key, "%s:%s" % (kind, text), where=fc.where(b, line))
+
+
+
 def run(ctx):
     rep = ctx.report
     prog = ctx.prog("default")
@@ -196,29 +227,7 @@ def run(ctx):
     except AnchorMissing as e:
         rep.anchor_missing("NI-1", str(e))
 
-    # ---------------- NI-2 / NI-3
-    for (rid, fn, gates) in (("NI-2", "handle_sync", [("sender == selected parent", gate_parent)]),
-                             ("NI-2", "handle_follow_up", [("sender == selected parent", gate_parent)]),
-                             ("NI-3", "handle_delay_resp", [("sender == selected parent", gate_parent),
-                                                            ("requester == own port", gate_requester)])):
-        try:
-            b = port(fn)
-        except AnchorMissing as e:
-            rep.anchor_missing(rid, str(e))
-            continue
-        c = cnd.conds(prog, b)
-        sites = E.sites(b)
-        if not sites:
-            rep.violation(rid, b.key, "effects", "no effect site found in %s (analysis lost the handler)" % fn, where=b.loc())
-        for (bi, line, kind, text) in sites:
-            lits = cnd.expand_literals(prog, b, c.must_literals(bi))
-            missing = [nm for (nm, g) in gates if not g(lits)]
-            if missing:
-                rep.violation(rid, b.key, "%s:%s" % (kind, text),
-                              "effect `%s` is not conditional on %s on every path; conditions that hold: %s" % (
-                                  text, missing, sorted(cnd.lit_str(l) for l in lits)), where=fc.where(b, line))
-            else:
-                rep.ok(rid, b.key, "%s:%s" % (kind, text), where=fc.where(b, line))
+    check_parent_gates(rep, prog, E)
 
     # ---------------- NI-4
     try:
